@@ -58,6 +58,8 @@ ASSUMPTIONS = ["polygons are simple, non-degenerate (bounds in the rule) and lie
                "'unbiased' is judged by a seeded two-sided bound with false-alarm probability 2.6e-12 per case",
                "rounding allowance: 4 x first-order worst-case error of the double-precision shoelace/Bourke sums",
                "the ASan pass of DESIGN.md is not part of this module"]
+ASAN_MODULES = ['cherab.tools.inversions.voxels']
+ASAN = dict(cases=400, workers=8, timecap=240)
 QUICK = dict(cases=400, workers=2, timecap=45)      # ~12 s of worker time on an idle machine
 THOROUGH = dict(cases=60000, workers=16, timecap=600)
 # minima are reached by ~100 cases: a quick run cut short by the time cap on a loaded machine is still conclusive
